@@ -166,9 +166,9 @@ Qed.
 Theorem moma_growth_char mk ref sr zs w ds :
   valid_model mk -> length zs = length (rxns mk) ->
   is_opt (moma_lp mk ref) (flat zs ++ w :: ds) ->
-  exists v, moma_opt mk ref v /\ fst (get_growth_moma sr w) = Some (dot (raw_obj mk) v) \/
-            (moma_opt mk ref v /\ w == dot (raw_obj mk) v).
+  get_growth_moma sr w = (Some w, sr_status sr) /\
+  exists v, moma_opt mk ref v /\ w == dot (raw_obj mk) v.
 Proof.
   intros Hv Hz Hopt. destruct (moma_lp_equiv mk ref zs w ds Hv Hz Hopt) as [A [_ [_ D]]].
-  exists (nets zs). right. split; assumption.
+  split; [reflexivity|]. exists (nets zs). split; assumption.
 Qed.
